@@ -266,7 +266,12 @@ FNUNITS = [
     # C03: the maximal-contiguous-run decision of NCvario (pointer cursors over shape / edges / origin, unsigned comparisons)
     ("Putget", "mfhdf/src/putget.c", ["NCvcmaxcontig"], {"ignore_calls": ["NCadvise", "H4_NCadvise"], "cflags": ["-DHDF"]}),
     # C05: the splay step of the skipping-Huffman coder (array-form tree; the rows left/right/up[skip_pos] are the regions)
-    ("Cskphuff", "hdf/src/cskphuff.c", ["HCIcskphuff_splay"], {}),
+    ("Cskphuff", "hdf/src/cskphuff.c", ["HCIcskphuff_splay", "HCIcskphuff_encode", "HCIcskphuff_decode"],
+     {"ignore_calls": ["HEclear", "HEPclear", "HEpush"], "io": {"Hbitwrite": "bitwrite", "Hbitread": "bitread"},
+      "abbrev": {"info_cinfo_coder_info_skphuff_info": "skphuff_info"},
+      # the encoder/decoder call the translated splay step on the rows left/right/up[skip_pos] of their arrays of rows
+      "row_args": {"HCIcskphuff_splay": {"skphuff_info_left": "skphuff_info_skip_pos", "skphuff_info_right": "skphuff_info_skip_pos",
+                                         "skphuff_info_up": "skphuff_info_skip_pos"}}}),
     # C06: the byte-swapping and native copy loops; s and d are addresses into ONE flat memory so that in-place use is faithful
     ("Dfkswap", "hdf/src/dfkswap.c", ["DFKsb2b", "DFKsb4b", "DFKsb8b"], {"flat": ["s", "d"], "ignore_calls": ["HEclear", "HEPclear", "HEpush"]}),
     ("Dfknat", "hdf/src/dfknat.c", ["DFKnb1b", "DFKnb2b", "DFKnb4b", "DFKnb8b"], {"flat": ["s", "d"], "ignore_calls": ["HEclear", "HEPclear", "HEpush"]}),
